@@ -149,6 +149,64 @@ func runC20(c *Ctx) {
 			"LRUCache.Get can return a hit without having taken the not-expired edge of Entry.IsExpired", c.blockPath(path)...)
 	}
 
+	// R6: overwrite replaces the whole entry (or at least its expiry)
+	c.rule("C20-R6", "MPT: in Set and SetWithTags, on the key-already-present edge every path to return installs the expiry of the new value: it stores the freshly built Entry (whose ExpiresAt was computed from this call's ttl) into the list element, or assigns Entry.ExpiresAt — otherwise a lookup can return a value past its own TTL")
+	for _, name := range []string{"LRUCache.Set", "LRUCache.SetWithTags"} {
+		fn := c.mustFn("C20-R6", cachePkg, name)
+		if fn == nil {
+			continue
+		}
+		var oks []ssa.Value
+		eachInstr(fn, func(_ *ssa.BasicBlock, _ int, ins ssa.Instruction) {
+			if lk, ok := ins.(*ssa.Lookup); ok && lk.CommaOk && loadedFromField(lk.X, "LRUCache", "items") {
+				oks = append(oks, extractOf(lk, 1)...)
+			}
+		})
+		installs := func(x ssa.Instruction) bool {
+			st, ok := x.(*ssa.Store)
+			if !ok {
+				return false
+			}
+			if isStoreToField(st, "Entry", "ExpiresAt") && !isFreshAlloc(st.Addr) {
+				return true
+			}
+			if nt, f, ok := fieldOf(st.Addr); ok && nt != nil && nt.Obj().Name() == "Element" && f == "Value" {
+				// value is a fresh Entry of this call with an ExpiresAt store
+				return derivesFrom(st.Val, func(v ssa.Value) bool {
+					al, ok := v.(*ssa.Alloc)
+					if !ok || !typeIs(al.Type(), modPath+"/pkg/cache", "Entry") {
+						return false
+					}
+					for _, r := range refs(al) {
+						if fa, ok := r.(*ssa.FieldAddr); ok {
+							if _, f2, _ := fieldOf(fa); f2 == "ExpiresAt" {
+								return true
+							}
+						}
+					}
+					return false
+				})
+			}
+			return false
+		}
+		n := 0
+		for _, b := range fn.Blocks {
+			for si, s := range b.Succs {
+				for _, o := range oks {
+					if known, val := boolOnEdge(b, si, o); known && val {
+						n++
+						q := &pathQuery{fn: fn, target: isReturn, stop: installs}
+						hit, path := q.from(s, 0)
+						c.ob("C20-R6", cachePkg+"."+name+"#overwrite-installs-new-expiry", ifOf(b).Cond.Pos(), hit == nil, "overwriting an existing key can return without installing the new value's expiry: the old (longer) TTL keeps a value alive past its own TTL", c.blockPath(path)...)
+					}
+				}
+			}
+		}
+		if n == 0 {
+			c.ob("C20-R6", cachePkg+"."+name+"#overwrite-branch", fn.Pos(), false, "no key-already-present branch found")
+		}
+	}
+
 	// R5: advisory — callbacks invoked while holding the lock
 	c.rule("C20-R5", "advisory: calls through function-valued fields (onEvict) while LRUCache.mu is held are listed (re-entrancy deadlock if the callback touches the cache); never a violation")
 	for _, fn := range c.srcFuncs(cachePkg) {
